@@ -11,8 +11,9 @@ import time
 
 from . import VERIF_DIR
 
-EVIDENCE_DIR = os.path.join(VERIF_DIR, 'evidence')
-REPLAY_DIR = os.path.join(VERIF_DIR, 'replays')
+EVIDENCE_DIR = os.environ.get('VERIF_EVIDENCE_DIR') or os.path.join(VERIF_DIR, 'evidence')
+REPLAY_DIR = os.path.join(os.environ['VERIF_EVIDENCE_DIR'], 'replays') if os.environ.get(
+    'VERIF_EVIDENCE_DIR') else os.path.join(VERIF_DIR, 'replays')
 KNOWN = os.path.join(VERIF_DIR, 'known_findings.json')
 
 
